@@ -27,6 +27,7 @@ struct SmtpConf {
   std::set<std::string> badmailfrom; std::string localiphost; bool liphostok = false; std::vector<uint32_t> ifaces;
   bool relayclient = false; std::string relaysuffix; uint64_t databytes = 0; int64_t timeout = 1200;
   std::string remotehost = "unknown", remoteip = "unknown", remoteinfo, local = "unknown"; bool have_info = false;
+  int qq_open_fails_at = 0;   // the n-th attempt to start the queue program fails in the daemon itself (fork or pipe): 451 to DATA, nothing read as data
 };
 
 struct ModelOut {
@@ -110,6 +111,7 @@ static int model_decode(const std::string &in, size_t start, size_t &consumed, s
 }
 
 static void model_smtp(const SmtpConf &cf, const std::string &in, const std::vector<std::pair<size_t, int64_t>> &stalls, int qq_code, const std::string &qq_text, ModelOut &M) {
+  int opens = 0;
   auto reply = [&](int code, char kind) { M.codes.push_back(code); M.kind.push_back(kind); };
   reply(220, 'g');
   bool seenmail = false, barf = false; std::string sender; std::vector<std::string> rcpts; std::string helo; bool fakehelo = false;
@@ -140,6 +142,7 @@ static void model_smtp(const SmtpConf &cf, const std::string &in, const std::vec
       if (!seenmail) { reply(503, 'c'); continue; }
       if (rcpts.empty()) { reply(503, 'c'); continue; }
       seenmail = false;
+      if (cf.qq_open_fails_at && ++opens == cf.qq_open_fails_at) { reply(451, 'c'); continue; }
       reply(354, 'i');
       std::string body; int hops = 0; size_t used = 0; size_t data_start = i;
       // stall inside the data phase
@@ -311,7 +314,8 @@ struct WorldSI : World, Net {
     if (e.has("RELAYCLIENT")) { cf.relayclient = true; cf.relaysuffix = e.gets("RELAYCLIENT"); }
     if (e.has("DATABYTES")) cf.databytes = strtoull(e.gets("DATABYTES").c_str(), 0, 10);
     if (plan->knobs.has("qq")) { use_stub = true; const Json &q = plan->knobs["qq"]; qq_code = (int)q.geti("code", 0); qq_text = q.gets("text"); qq_read_all = q.getb("read_all", true); }
-    for (auto &f : plan->faults) if (f.actor.compare(0, 11, "qmail-smtpd") == 0 || f.actor.compare(0, 10, "qmail-qmtp") == 0 || f.actor.compare(0, 10, "qmail-qmqp") == 0) daemon_fault = true;
+    for (auto &f : plan->faults) if (f.actor.compare(0, 11, "qmail-smtpd") == 0 || f.actor.compare(0, 10, "qmail-qmtp") == 0 || f.actor.compare(0, 10, "qmail-qmqp") == 0) { if (plan->knobs.has("qq_open_fails_at") && (f.call == C_FORK || f.call == C_PIPE)) continue; daemon_fault = true; }
+    cf.qq_open_fails_at = (int)plan->knobs.geti("qq_open_fails_at", 0);
   }
 
   int qq_main() {
